@@ -185,6 +185,7 @@ CONFIGS = {
 DEPTH = {'quick': 6, 'thorough': 9}
 DEVK = {'quick': 1, 'thorough': 2}
 DEV_KINDS = ('coop', 'lateclose', 'silent', 'refuse')
+HOSTILE_PHASE = None     # C18 plugs in its hostile single-message phase
 QUICK_DEV = (2, 10)      # quick tier: k deviations within the first n steps
 THOROUGH_DEV = (2, 16)   # thorough: the full menu makes unbounded k=2 a multi-hour run (~1 M executions per script)
 
@@ -201,11 +202,15 @@ def run(tier, seed, prop=PROP, harness=None):
             kk, win = QUICK_DEV if tier == 'quick' else THOROUGH_DEV
             st = explore.deviations(h, cfg, kk, 45, col, script_kw={'kind': kind}, window=win)
             dev.append({'cfg': cfg, 'script': kind, 'executions': st['executions'], 'events': st['events'], 'k': st['k'], 'window': st['window']})
+    hostile = None
+    if HOSTILE_PHASE is not None and prop == 'C18':
+        hostile = HOSTILE_PHASE(tier, seed, col)
     explore.close_pool()
     n_new, n_known, summary = col.finish('e1-history')
     cov = {
         'states': res.states, 'transitions': res.transitions,
-        'traces_validated_against_impl': res.transitions + sum(d['executions'] for d in dev),
+        'hostile_single_message_deliveries': hostile[0] if hostile else 0, 'hostile_frames': hostile[1] if hostile else 0,
+        'traces_validated_against_impl': res.transitions + sum(d['executions'] for d in dev) + (hostile[0] if hostile else 0),
         'samples': res.samples, 'max_depth': res.max_depth, 'closed': res.closed,
         'depth_cap_hit': res.depth_cap_hit, 'distinct_observation_classes': len(res.obs_classes),
         'merges': res.merges, 'merges_checked': res.merges_checked, 'diverged_transitions': res.diverged,
